@@ -428,6 +428,16 @@ pub fn run(run: &mut Run) -> Finish {
             l.sample(idx, json!({"slice": "L2", "document": String::from_utf8_lossy(&doc_of(&lines, &["a", "b", "c"], &["x", "y", "z"]).0)}));
         }
     });
+    // X: extreme coordinates
+    let nx = x_count();
+    run.par_slice("X: documents whose tokens have generated columns / original lines / columns over {0, 7, 2^31-1, 2^31, 2^32-2, 2^32-1} (deltas of +-2^31 and more)", 9, nx, |idx, l| {
+        let m = x_map(idx & ((1 << 40) - 1));
+        let doc = rv3_write(&m);
+        if let Some((sig, what)) = check_doc(doc.as_bytes(), Kind::Regular, Some(&m.obs()), "extreme-coordinates") {
+            l.violation(idx, Viol::new(format!("C02/{sig}"), what, json!({"kind": "model", "model": serde_json::to_value(&m).unwrap()})));
+        }
+        l.case(true, h64(&("X", m.tokens.iter().map(|t| (t.gc >> 30, t.src.map(|s| (s.1 >> 30, s.2 >> 30)))).collect::<Vec<_>>())));
+    });
     // K
     let orders = 2 + 12;
     let nk = 512 * orders as u64 * 3 * 2;
@@ -469,6 +479,10 @@ pub fn recheck(case: &Value) -> Vec<Viol> {
             check_lines(&lines, &tag).into_iter().collect()
         }
         Some("keys") => check_k(case["subset"].as_u64().unwrap_or(0), case["order"].as_u64().unwrap_or(0) as usize, case["header"].as_u64().unwrap_or(0) as usize, case["layout"].as_u64().unwrap_or(0) as usize).into_iter().collect(),
+        Some("model") => {
+            let Ok(m) = serde_json::from_value::<RMap>(case["model"].clone()) else { return vec![] };
+            check_doc(rv3_write(&m).as_bytes(), Kind::Regular, Some(&m.obs()), "extreme-coordinates").map(|(s, w)| Viol::new(format!("C02/{s}"), w, case.clone())).into_iter().collect()
+        }
         Some("lenient") => check_v(case["which"].as_u64().unwrap_or(0) as usize, case["k"].as_u64().unwrap_or(0)).into_iter().collect(),
         _ => vec![],
     }
